@@ -7,8 +7,9 @@ histories of serve / re-serve / round-trip / warm-up / restart and checks after 
 query that the simplified AST evaluates like the original (direct oracle), tagging a failure as
 history-dependent when the same query text is simplified correctly under another history.
 
-restart = load the module afresh under a private name with importlib (resets whatever module
-state exists); `epoch: "child"` ops run a whole epoch in a real child interpreter instead.
+restart = a new process: the history is cut into epochs at every restart op and each epoch runs in
+a process forked from the pristine, warmed-up worker, so the state of EVERY module is that of a
+new interpreter; only the durable state (query and output texts) is carried over.
 
 generate(prop, seed, tier) -> case ; execute(case) -> result ; both pure.
 """
@@ -22,8 +23,9 @@ import re
 from . import linq_eval as le
 from .core import Streams, mix
 
-ENGINE_VERSION = 1
+ENGINE_VERSION = 2
 SHRINK_EXEC = 3000
+ISOLATE = False  # execute() forks one pristine process per epoch itself
 _ADDR = re.compile(r"0x[0-9a-fA-F]+")
 RULE = ("one case = one seeded history (<=25 ops) of a simplifier node: serve a generated closed, "
         "type-correct query (nine fusion pairs, First/Count, tuple/list/dict packaging with constant "
@@ -34,11 +36,12 @@ RULE = ("one case = one seeded history (<=25 ops) of a simplifier node: serve a 
         "datasets + the empty one.  non-trivial = the run contains a restart or a round trip or a "
         "re-serve, or serves a query with an arg_N binder; distinct = different SHA-1 of (op "
         "kinds + query texts)")
-COMPONENTS_REAL = ["func_adl.ast.function_simplifier (fresh module object per restart)",
+COMPONENTS_REAL = ["func_adl.ast.function_simplifier (the real module, in a new process per epoch)",
                    "func_adl.ast.call_stack, func_adl.util_ast, func_adl.ast.func_adl_ast_utils",
                    "CPython compile/eval as the reference semantics"]
-COMPONENTS_STUB = ["process restart (module reload under a private name; real child interpreters "
-                   "only for `child` epochs)", "the query queue (a Python list of texts)"]
+COMPONENTS_STUB = ["process restart (every epoch runs in a process forked from a pristine, warmed-up "
+                   "worker: all module state is that of a new interpreter)",
+                   "the query queue (a Python list of texts carried from epoch to epoch)"]
 ASSUMPTIONS = [
     "the reference evaluator's 8 one-liners (Select/Where/SelectMany/First/Count over list) are the LINQ meaning",
     "claimed on a restricted naming family: binders pairwise distinct inside a query (letters and arg_N); no called lambda whose parameter is re-bound inside its body",
@@ -444,14 +447,21 @@ def to_text(a):
 
 
 class Node:
-    def __init__(self, case):
+    """One epoch of the node: a freshly started process (forked from the pristine worker, so
+    EVERY module's state is what a new interpreter has), given the durable state of the earlier
+    epochs (the served queries and outputs as text)."""
+
+    def __init__(self, case, state=None):
         self.case = case
         self.data = build_data(case["config"]["data"])
-        self.mod = fresh_module()
+        self.mod = _real_mod()
         self.inst = None
-        self.stats = {}
-        self.served = []  # {text, refs, outs:[(counter_before, text_out)]}
-        self.events = []
+        state = state or {}
+        self.stats = state.get("stats", {})
+        self.served = state.get("served", [])  # {text, refs, out, counter, root}
+        self.events = state.get("events", [])
+        self.resolved = state.get("resolved", [])
+        self.restarted_since_argn_made = state.get("restarted", False)
         self.refs_cache = {}
 
     def stat(self, k, n=1):
@@ -535,10 +545,8 @@ class Node:
                 "simplified_value": repr(bad[2])[:200]})
         return rec
 
-    def run(self):
-        self.restarted_since_argn_made = False
-        self.resolved = []
-        for op in self.case["ops"]:
+    def run(self, ops):
+        for op in ops:
             k = op["op"]
             self.resolved.append(op)
             if k == "serve":
@@ -592,9 +600,7 @@ class Node:
                 rec = self.serve(text, self.refs_for(root), "extend", root)
                 if rec:
                     self.served.append(rec)
-            elif k == "restart":
-                self.mod = fresh_module()
-                self.inst = None
+            elif k == "restart":  # only reached as the first op of an epoch
                 self.stat("fault_restart")
                 self.restarted_since_argn_made = True
                 self.events.append("restart")
@@ -606,13 +612,42 @@ class Node:
                 self.events.append(f"warm|{counter_of(self.mod)}")
 
 
-def execute(case):
-    n = Node(case)
+def run_epoch(case, ops, state):
+    "Runs in a process forked from the pristine worker; returns the durable state."
+    n = Node(case, state)
     viol = None
     try:
-        n.run()
+        n.run(ops)
     except Violation as v:
         viol = {"class": v.cls, "detail": v.detail}
+    return {"stats": n.stats, "served": n.served, "events": n.events, "resolved": n.resolved,
+            "restarted": n.restarted_since_argn_made, "violation": viol}
+
+
+class _Final:
+    pass
+
+
+def execute(case):
+    from .core import isolated
+
+    # split the history into epochs at every restart: each epoch is a new process
+    epochs = [[]]
+    for op in case["ops"]:
+        if op["op"] == "restart" and epochs[-1]:
+            epochs.append([])
+        epochs[-1].append(op)
+    state = None
+    viol = None
+    for ops in epochs:
+        state = isolated(run_epoch, case, ops, state)
+        viol = state.pop("violation")
+        if viol is not None:
+            break
+    n = _Final()
+    n.stats, n.served, n.events, n.resolved = (state["stats"], state["served"], state["events"],
+                                               state["resolved"])
+    n.stats["epochs_started"] = n.stats.get("epochs_started", 0) + len(epochs)
     kinds = [o["op"] for o in case["ops"]]
     texts = "\n".join(o.get("q", "") for o in case["ops"])
     nontrivial = any(k in ("restart", "roundtrip", "reserve", "extend") for k in kinds) or bool(
